@@ -625,8 +625,13 @@ def _iter_segments(
                             raise NotImplementedError(  # pragma: no cover
                                 "Found literal whitespace with stashed idx!"
                             )
+                        # NOTE: Only what this slice adds beyond the part of
+                        # the element which has been consumed already (it may
+                        # be split more than once).
                         incremental_length = (
-                            tfs.templated_slice.stop - element.template_slice.start
+                            tfs.templated_slice.stop
+                            - element.template_slice.start
+                            - consumed_element_length
                         )
                         yield element.to_segment(
                             pos_marker=PositionMarker(
